@@ -11,8 +11,15 @@ RULE = ("complete enumeration: all 256 byte values (decode, encode, injectivity,
         "0..0x10FFFF through str.encode('bk') (table members give their byte, all others raise UnicodeEncodeError with start at "
         "their index), every {encodable,unencodable} pattern of length <= 4 with 3 representatives per class, and at assembly level "
         "'.ascii', '.asciz', 'c and \"cc for each of the 256 table characters (batched, bisected) and '.ascii' / 'c for every BMP "
-        "code point outside the table (run alone; must fail with an error); non-trivial = distinct (code point or byte, route) pair")
+        "code point outside the table (run alone; must fail with an error); 5 characters x 5 programs (literal / string, in the main file and in "
+        "an included file) assembled three times in one process under every ordered pair of 4 output charsets; non-trivial = distinct (code point or byte, route) pair")
 ASSUMPTIONS = ["Python's koi8_r codec is the independent KOI8-R source", "pseudo-graphics block 0x7F-0xBF is only required to be a bijection"]
+
+
+# the same sources assembled again in one process under another (or the same) output charset: refusal and bytes depend on the
+# charset of *this* run only
+HISTORY_CHARS = ["\u0451", "\u044f", "\u2500", "\u00e9", "Z"]
+HISTORY_CHARSETS = ["bk", "koi8-r", "cp1251", "utf-8"]
 
 
 def bound(tier):
@@ -35,6 +42,8 @@ def cases(tier):
         yield {"k": "asm-good", "lo": lo, "hi": lo + 32}
     for lo in range(0, 0x10000, 128):
         yield {"k": "asm-bad", "lo": lo, "hi": lo + 128}
+    for ch in HISTORY_CHARS:
+        yield {"k": "history", "ch": ch}
 
 
 def check(case, r, tier):
@@ -45,6 +54,43 @@ def check(case, r, tier):
         return batch.replay_error(case, r)
     T = table()
     members = {}
+    if k == "history":
+        import shutil
+        ch = case["ch"]
+
+        def enc(cs):
+            if cs == "bk":
+                return bytes([T.index(ch)]) if ch in T else None
+            try:
+                return ch.encode(cs)
+            except UnicodeEncodeError:
+                return None
+        progs = {"lit-main": ("\t.byte '%s\n" % ch, "lit"), "lit-inc": ("\t.include \"h1.mac\"\n", "lit"), "ascii-main": ("\t.ascii /%s/\n" % ch, "str"), "ascii-inc": ("\t.include \"h2.mac\"\n", "str"),
+                 "word-inc": ("\t.include \"h3.mac\"\n", "word")}
+        tree = {"h1.mac": "\t.byte '%s\n" % ch, "h2.mac": "\t.ascii /%s/\n" % ch, "h3.mac": "\tmov #'%s, r0\n" % ch}
+        for pname, (text, kind) in progs.items():
+            for seq in itertools.product(HISTORY_CHARSETS, repeat=2):
+                root = driver.prepare_tree(tree)
+                try:
+                    for step, cs in enumerate(seq + (seq[0],)):
+                        e = enc(cs)
+                        if kind == "str":
+                            want = e
+                        elif kind == "lit":
+                            want = e if e is not None and len(e) == 1 else None
+                        else:
+                            want = None if e is None or len(e) > 2 else b"\xc0\x15" + e.ljust(2, b"\x00")
+                        out = driver.assemble([("m.mac", text)], charset=cs, root=root)
+                        good = (out.status == "fail") if want is None else (out.status == "ok" and out.code == want)
+                        r.ran(out.cls(), key=("history", ch, pname, seq, step))
+                        if not good:
+                            r.violation("history:%s:%s" % (pname, "accepted" if want is None and out.status == "ok" else ("wrong-bytes" if out.status == "ok" else out.cls())),
+                                        "%s under charset %s as run %d of the sequence %s in one process: %s" % (pname, cs, step + 1, list(seq + (seq[0],)), "must be refused" if want is None else "must give " + want.hex()),
+                                        {"k": "history", "ch": ch}, "error" if want is None else want.hex(), out.brief())
+                            break
+                finally:
+                    shutil.rmtree(root, ignore_errors=True)
+        return
     if k == "table":
         seen = {}
         for b in range(256):
